@@ -46,6 +46,16 @@ pub open spec fn malformed(d: AspaDefinition) -> bool {
 '''
 
 
+CA_SPEC = r'''
+/// everything the CA currently holds under all parents (CertAuth::all_resources; verified in unit c05_allres)
+pub uninterp spec fn all_res(ca: CertAuth) -> ResourceSet;
+/// the providers of a customer as configured now (none: no definition)
+pub open spec fn providers_now(ca: CertAuth, customer: Asn) -> PSet {
+    if ca.aspas.attestations@.contains_key(customer) { ca.aspas.attestations@[customer].providers@.to_set() } else { Set::<Asn>::empty() }
+}
+'''
+
+
 def build():
     U = Unit('c05_aspa', 'C05', 'ASPA delta: refused exactly when malformed / customer not held / removes an unknown customer; accepted delta applied entirely (event replay == result)')
     prelude.hashmap(U, get_mut=True)
@@ -62,13 +72,16 @@ impl ResourceSet { pub fn contains_asn(&self, _a: Asn) -> bool { unimplemented!(
 /// R14: stands for `a.iter().filter(|x| !b.contains(x)).copied().collect()` (iterator chain, outside the verifier)
 pub fn vx_minus(_a: &Vec<Asn>, _b: &Vec<Asn>) -> Vec<Asn> { unimplemented!() }
 ''')
-    U.struct(API, 'AspaDefinition', derive=['Clone'])
+    U.struct(API, 'AspaDefinition', derive=['Clone', 'PartialEq', 'Eq'], structural=False)
     U.struct(API, 'AspaDefinitionUpdates', derive=[])
     U.struct(API, 'AspaProvidersUpdate', derive=[])
     U.struct(ASPA, 'AspaDefinitions', derive=['Clone'])
     U.enum(EV, 'CertAuthEvent', keep=['AspaConfigAdded', 'AspaConfigUpdated', 'AspaConfigRemoved'], derive=[])
     U.enum(ERR, 'Error', keep=['AspaCustomerUnknown', 'AspaProvidersEmpty', 'AspaCustomerAsProvider', 'AspaProvidersDuplicates', 'AspaCustomerAsNotEntitled'], derive=[])
+    U.auto_opaque = True
+    U.struct('src/server/ca/certauth.rs', 'CertAuth', derive=[])
     U.add(SPEC)
+    U.add(CA_SPEC)
     U.add('''
 /// ASSUMED (std): sort gives a sorted permutation; dedup of a sorted vector leaves each value exactly once; slice contains
 pub uninterp spec fn is_sorted<T>(s: Seq<T>) -> bool;
@@ -231,4 +244,27 @@ pub open spec fn rm_view(v: AView, removed: Seq<Asn>, n: int) -> AView decreases
 }
 pub open spec fn rm_present(v: AView, removed: Seq<Asn>, i: int) -> bool { rm_view(v, removed, i).contains_key(removed[i]) }
 """)
+    U.impl('impl CertAuth', [
+        U.fn('src/server/ca/certauth.rs', 'CertAuth', 'all_resources', external_body=True, ensures=[('is_all_res', 'r == all_res(*self)')]),
+        U.fn('src/server/ca/certauth.rs', 'CertAuth', 'handle', ensures=[('own_handle', '*r == self.handle')]),
+        # the decision of the "update existing" command for one customer: what the definition WOULD be after the update is what counts
+        U.fn('src/server/ca/certauth.rs', 'CertAuth', 'updated_allowed_and_needed', requires=[('km', km),
+             ('definitions_are_filed_under_their_customer', 'forall |k: Asn| #[trigger] self.aspas.attestations@.contains_key(k) ==> self.aspas.attestations@[k].customer == k')],
+             closures={0: {'header': '|| -> (d: AspaDefinition)', 'ensures': 'd.customer == customer && d.providers@.len() == 0'}},
+             ensures=[
+                 ('refused_only_for_a_definition_that_would_stay_and_is_not_backed', '''r is Err ==> upd(providers_now(*self, customer), *update).len() > 0
+                        && (!holds_asn(all_res(*self), customer) || upd(providers_now(*self, customer), *update).contains(customer))'''),
+                 ('an_accepted_change_removes_the_definition_or_is_backed_by_the_customer_as_and_well_formed', '''r == Ok::<bool, Error>(true) ==>
+                        upd(providers_now(*self, customer), *update) =~= Set::<Asn>::empty()
+                        || (holds_asn(all_res(*self), customer) && !upd(providers_now(*self, customer), *update).contains(customer))'''),
+             ],
+             ghost=[(('after', 'updated.apply_update(update);'), '''proof {
+            assert(existing.providers@.to_set() =~= providers_now(*self, customer));
+            let n = upd(providers_now(*self, customer), *update);
+            assert(updated.providers@.to_set() == n);
+            if updated.providers@.len() == 0 { assert(n =~= Set::<Asn>::empty()); }
+            else { assert(n.contains(updated.providers@[0])); updated.providers@.lemma_cardinality_of_set(); }
+            assert(updated.providers@.contains(updated.customer) == n.contains(customer));
+        }''')]),
+    ])
     return U
